@@ -69,8 +69,13 @@ def c08_case(draw):
             ctx[k] = [draw(st.sampled_from(VALS)) for _ in range(ln)]
         src = None
         if draw(st.integers(0, 2)) == 0:
-            f = draw(file_spec(len(files)))
-            files.append(f)
+            reused = False
+            if files and draw(st.sampled_from([False, True, False])):
+                f = draw(st.sampled_from(files))  # a second block reads the same file (other select / rename)
+                reused = True
+            else:
+                f = draw(file_spec(len(files)))
+                files.append(f)
             cols = list(f["columns"])
             select = None
             if draw(st.booleans()):
@@ -85,6 +90,10 @@ def c08_case(draw):
                 rename = {a: b, b: a} if draw(st.booleans()) else {a: b, b: draw(st.sampled_from(["r1", "r2"]))}
                 if draw(st.booleans()):
                     rename = dict(reversed(list(rename.items())))
+            if reused and cols and draw(st.booleans()):
+                # make the second reading of the file a VALID one: one column, renamed to a key nobody else uses
+                c0 = draw(st.sampled_from(cols))
+                select, rename = [c0], {c0: "shared_%d" % len(blocks)}
             src = {"format": f["format"], "path": f["name"], "select": select, "rename": rename,
                    "mode": draw(st.sampled_from(["by_position", "by_position", "combinatorial", None]))}
             if draw(st.integers(0, 14)) == 0:
